@@ -1985,11 +1985,74 @@ func (ctx *RenderContext) ToString(val interface{}) string {
 		return ""
 	}
 
+	if containsItself(reflect.ValueOf(val), nil) {
+		return cyclicValueText
+	}
+
 	if s, ok := textWithoutAddress(val); ok {
 		return s
 	}
 
 	return fmt.Sprintf("%v", val)
+}
+
+// cyclicValueText stands for a map, slice or pointer that contains itself: fmt would follow it until
+// the stack is exhausted, which kills the process
+const cyclicValueText = "<cyclic value>"
+
+type openRef struct {
+	kind reflect.Kind
+	ptr  uintptr
+}
+
+// containsItself reports whether a map, slice or pointer is reachable from itself
+func containsItself(v reflect.Value, open map[openRef]bool) bool {
+	switch v.Kind() {
+	case reflect.Interface:
+		return !v.IsNil() && containsItself(v.Elem(), open)
+	case reflect.Ptr, reflect.Map, reflect.Slice:
+		if v.IsNil() || (v.Kind() == reflect.Slice && v.Len() == 0) {
+			return false
+		}
+		ref := openRef{v.Kind(), v.Pointer()}
+		if open[ref] {
+			return true
+		}
+		if open == nil {
+			open = map[openRef]bool{}
+		}
+		open[ref] = true
+		defer delete(open, ref)
+		switch v.Kind() {
+		case reflect.Ptr:
+			return containsItself(v.Elem(), open)
+		case reflect.Map:
+			for it := v.MapRange(); it.Next(); {
+				if containsItself(it.Key(), open) || containsItself(it.Value(), open) {
+					return true
+				}
+			}
+		default:
+			for i := 0; i < v.Len(); i++ {
+				if containsItself(v.Index(i), open) {
+					return true
+				}
+			}
+		}
+	case reflect.Array:
+		for i := 0; i < v.Len(); i++ {
+			if containsItself(v.Index(i), open) {
+				return true
+			}
+		}
+	case reflect.Struct:
+		for i := 0; i < v.NumField(); i++ {
+			if containsItself(v.Field(i), open) {
+				return true
+			}
+		}
+	}
+	return false
 }
 
 // textWithoutAddress gives the text of the values whose %v form would be a memory address:
